@@ -2074,10 +2074,23 @@ impl<T: PPGEvaluatorStrategy> PPGEvaluator<T> {
                             "Should have had history for it, if it was validated?!".to_string(),
                         )
                     })?;
-                let my_historical_input = history.get(&format!(
-                    "{}!!!{}",
-                    &jobs[upstream_idx].job_id, &jobs[node_idx].job_id
-                ));
+                let my_historical_input = history
+                    .get(&format!(
+                        "{}!!!{}",
+                        &jobs[upstream_idx].job_id, &jobs[node_idx].job_id
+                    ))
+                    .or_else(|| {
+                        // same as in edge_invalidated: the upstream might be a multi output job
+                        // that has been renamed since this job was done.
+                        Self::try_finding_renamed_multi_output_job(
+                            &jobs[upstream_idx].job_id,
+                            &jobs[node_idx].job_id,
+                            history,
+                        )
+                        .and_then(|x| {
+                            history.get(&format!("{}!!!{}", x, &jobs[node_idx].job_id))
+                        })
+                    });
                 match my_historical_input {
                     None => {
                         //no history, so certainly invalidated
